@@ -83,6 +83,10 @@ WITNESS_TYPES = ['legacy', 'segwit', 'p2sh-segwit']
 TESTNET = 'bitcoinlib_test'
 ENC_KEY_HEX = '11223344556677889900aabbccddeeff11223344556677889900aabbccddeeff'
 ENC_PASSWORD = 'verybadpassword'
+DB_MODES = ['key', 'password', 'key', 'password', 'key48', 'key64', 'key16', 'key', 'password', 'key48', 'key64', 'key',
+            'password', 'key', 'password', 'key16']
+DB_MODE_KEYS = {'key': ENC_KEY_HEX, 'key48': ENC_KEY_HEX + '0f' * 16, 'key64': ENC_KEY_HEX * 2,
+                'key16': ENC_KEY_HEX[:32]}
 B58_TOKEN = re.compile(r'[1-9A-HJ-NP-Za-km-z]{40,200}')
 
 
@@ -1514,8 +1518,9 @@ def db_strategy(ctx):
     return st.fixed_dictionaries({
         'kind': st.just('db'),
         # quick tier: one case per shard, the mode alternates over the shards (deterministic enumeration)
-        'mode': st.just('key' if ctx.shard % 2 == 0 else 'password') if ctx.tier == 'quick' else
-        st.sampled_from(['key', 'password']),
+        # (a key of 32, 48 or 64 bytes is what the cipher behind the encrypted columns takes; a key of another length is
+        # a configuration with which the library may refuse to work, but must not store readable keys)
+        'mode': st.just(DB_MODES[ctx.shard % len(DB_MODES)]) if ctx.tier == 'quick' else st.sampled_from(DB_MODES),
         'specs': st.lists(wallet_spec_strategy(ctx, max_ops=5), min_size=2, max_size=3),
     })
 
@@ -1560,8 +1565,8 @@ def _run_db_worker(case, mode, workdir):
     e['PYTHONPATH'] = env.VERIF_DIR + (os.pathsep + env.DEPS_DIR if os.path.isdir(env.DEPS_DIR) else '')
     e['VERIF_REPO'] = env.REPO_DIR
     e['PYTHONHASHSEED'] = '0'
-    if mode == 'key':
-        e['DB_FIELD_ENCRYPTION_KEY'] = ENC_KEY_HEX
+    if mode in DB_MODE_KEYS:
+        e['DB_FIELD_ENCRYPTION_KEY'] = DB_MODE_KEYS[mode]
     elif mode == 'password':
         e['DB_FIELD_ENCRYPTION_PASSWORD'] = ENC_PASSWORD
     p = subprocess.run([sys.executable, '-c', WORKER], input=json.dumps(case).encode(), env=e, cwd=env.VERIF_DIR,
@@ -1635,7 +1640,7 @@ def check_db(ctx, case, control=False):
         hits, info = _scan_data_dir(workdir, case['specs'])
         if control:
             return hits, info
-        if not res['enc_key_seen']:
+        if not res['enc_key_seen'] and not hits:
             raise HarnessError('encryption variable did not reach the library (EncryptedBinary.key is None)')
         ctx.klass('db.mode.%s' % case['mode'])
         ctx.klass('db.private_rows', info['private_rows'])
